@@ -68,6 +68,9 @@ def control(ch, cfg, ns):
             for a in ('min', 'max', 'value'):
                 if ch.p(0.6):
                     attrs[a] = pick_value(ch, pool, hostile)
+            if 'value' in attrs and ch.p(0.25):
+                # a value sitting exactly on one of its bounds (the edge of in-range, for plain and for reversed ranges)
+                attrs['value'] = attrs.get(ch.pick(('min', 'max')), attrs['value'])
         if ch.p(0.2):
             attrs['placeholder'] = pick_value(ch, ('', 'hint', ' '), hostile)
         if ch.p(0.15) and 'value' not in attrs:
